@@ -94,7 +94,7 @@ impl Property for C16 {
         "C16"
     }
     fn rule(&self) -> &'static str {
-        "case = a text of 0-40 pieces (literals, the dictionary's own words, runs of one piece of 2^k-1 / 2^k / 2^k+1 repetitions up to 600, thorough 5,000; a family padded to the 4,096 window end) over terminators, ・ runs, <br> tags, both kinds of brackets (nested, unbalanced), commas, \
+        "case = a text of 0-40 pieces (literals, the dictionary's own words, runs of one piece of 2^k-1 / 2^k / 2^k+1 repetitions up to 600, thorough 2,100; a family padded to the 4,096 window end) over terminators, ・ runs, <br> tags, both kinds of brackets (nested, unbalanced), commas, \
          alphanumerics and kanji numerals, quote particles, neutral 1-4 byte characters and whitespace; a window limit 1-12 or the default; with / without the dictionary based \
          non-break check, the dictionary containing the terminator as a one-character word, words containing / ending with / starting with it, and plain words. Oracle: ranges are \
          non-empty, contiguous from 0 to the end, on character boundaries, slices equal the text, iteration stops within len+1 steps; every sentence but the last ends with a \
@@ -123,7 +123,7 @@ impl Property for C16 {
         let tp = prop_oneof![
             12 => text_piece().prop_map(TP::Lit),
             5 => any::<u16>().prop_map(TP::Word),
-            1 => (run_unit, crate::gen::boundary_len(tier.pick(600, 5000))).prop_map(|(u, n)| TP::Run(u.to_string(), n)),
+            1 => (run_unit, crate::gen::boundary_len(tier.pick(600, 2100))).prop_map(|(u, n)| TP::Run(u.to_string(), n)),
         ];
         fn render(words: &[String], t: &[TP]) -> String {
             let mut s = String::new();
@@ -176,7 +176,22 @@ impl Property for C16 {
         prop_oneof![12 => general, 4 => simple, 4 => sparse, 1 => straddle, tier.pick(0, 2) => long].boxed()
     }
     fn cases_per_shard(&self, tier: Tier) -> u32 {
-        tier.pick(6000, 100000)
+        // thorough: 16 x 40,000 (the first thorough soak needed 77 minutes with 100,000 cases and runs of 5,000)
+        tier.pick(6000, 40000)
+    }
+    fn extra(&self, tier: Tier, _seed: u64, ctx: &mut Ctx, stats: &mut Stats) -> Vec<(Value, Failure)> {
+        // windows far above the default: "every processing-window limit" includes the caller who asks for no window
+        let mut fam: Vec<(String, Case)> = Vec::new();
+        let lens: &[usize] = if tier == Tier::Quick { &[170_000] } else { &[100_000, 166_665, 166_667, 170_000, 400_000] };
+        for n in lens {
+            for limit in [200_000usize, 1_000_000, usize::MAX / 2] {
+                for (unit, tail) in [("あ", "。いう。"), ("a", ".b c."), ("1.", "。")] {
+                    let text = format!("{}{}", unit.repeat(*n / unit.chars().count()), tail);
+                    fam.push((format!("{} x {:?} under window {}", n, unit, limit), Case { words: vec![], user_words: vec![], text, limit: Some(limit), checker: false, simple: false, term: None }));
+                }
+            }
+        }
+        run_family(self, ctx, stats, "large-window", fam)
     }
     fn check(&self, case: &Case, ctx: &mut Ctx) -> Report {
         let mut rep = Report::default();
